@@ -43,6 +43,7 @@ K_ERANGE = "literal/strtod-ERANGE-makes-a-literal-a-field-code"
 K_NEGFLIP = "literal/integer-below-INT64_MIN-read-as-positive"
 K_NTOK = "parse/tokeniser-error-in-first-two-tokens-reported-as-N_TOK"
 K_LINCOMN = "parse/LINCOM-count-optional-before-version-7"
+K_BITOVF = "parse/BIT-range-check-overflows-int"
 
 
 def load_staged_findings(chk):
@@ -59,6 +60,20 @@ def load_staged_findings(chk):
 def run(cmd, inp=None, timeout=3000):
     p = subprocess.run(cmd, input=inp, stdout=subprocess.PIPE, stderr=subprocess.PIPE, timeout=timeout)
     return p.returncode, p.stdout.decode("latin-1"), p.stderr.decode("latin-1")
+
+
+def run_sharded(cmd, inp, n=8):
+    """run a line-per-case filter on the input split into n contiguous chunks, in parallel"""
+    lines = inp.split(b"\n")
+    if lines and lines[-1] == b"":
+        lines.pop()
+    if len(lines) < 4 * n:
+        return run(cmd, inp)
+    per = (len(lines) + n - 1) // n
+    chunks = [b"\n".join(lines[i:i + per]) + b"\n" for i in range(0, len(lines), per)]
+    with ThreadPoolExecutor(max_workers=n) as ex:
+        res = list(ex.map(lambda c: run(cmd, c), chunks))
+    return max(r[0] for r in res), "".join(r[1] for r in res), "".join(r[2] for r in res)
 
 
 # ------------------------------------------------------------------ tokeniser
@@ -396,7 +411,7 @@ def line_cases(chk):
     """generated field specification lines for the 18 field types (mostly valid, with every optional
     token present/absent, literals of every form and scalar field codes, and the ways to be wrong)"""
     rng = chk.rng
-    num_i = ["0", "1", "3", "7", "63", "64", "-1", "010", "0x10", "1e1", "2.7", "4294967297", "-0", "+5", "k", "c<2>", "k<0>", "1;0", "1;2", "", "1e999"]
+    num_i = ["0", "1", "3", "7", "63", "64", "2147483647", "-1", "010", "0x10", "1e1", "2.7", "4294967297", "-0", "+5", "k", "c<2>", "k<0>", "1;0", "1;2", "", "1e999"]
     num_c = ["1", "0", "-2.5", "1e3", "0x1p-1", "1;2", "0;1", "1.5;-2", "k", "c<1>", "inf", "nan", "1e-310", "-9223372036854775809", "010", ""]
     types = ["UINT8", "INT8", "UINT16", "INT16", "UINT32", "INT32", "UINT64", "INT64", "FLOAT32", "FLOAT64", "FLOAT", "DOUBLE",
              "COMPLEX64", "COMPLEX128", "c", "u", "s", "U", "i", "S", "f", "d", "n", "x", "UINT9", "uint8", ""]
@@ -451,8 +466,10 @@ def lines_part(chk, spec_exe, lit_exe, drv, problems):
                 cases.append((mode, v, pre, ln))
     inp1 = "".join("%sI %s\n" % (m, (pre + ln + "\n").encode().hex()) for m, v, pre, ln in cases).encode()
     inp2 = "".join("%s %d %s\n" % (m, v, (ln + "\n").encode().hex()) for m, v, pre, ln in cases).encode()
-    rc1, o1, e1 = run([spec_exe], inp1)
-    rc2, o2, e2 = run([drv, "line", variant], inp2)
+    with ThreadPoolExecutor(max_workers=2) as ex:
+        f1 = ex.submit(run_sharded, [spec_exe], inp1, 12)
+        f2 = ex.submit(run_sharded, [drv, "line", variant], inp2, 4)
+        (rc1, o1, e1), (rc2, o2, e2) = f1.result(), f2.result()
     il, ml = o1.splitlines(), o2.splitlines()
     if rc1 != 0 or rc2 != 0 or len(il) != len(cases) or len(ml) != len(cases):
         problems.append("line harness/driver failed rc=%d/%d lines=%d/%d/%d %s %s" % (rc1, rc2, len(cases), len(il), len(ml), e1[-200:], e2[-200:]))
@@ -488,6 +505,8 @@ def lines_part(chk, spec_exe, lit_exe, drv, problems):
             key = K_ERANGE
         elif "-9223372036854775809" in ln:
             key = K_NEGFLIP
+        elif ftype in ("BIT", "SBIT") and "2147483647" in ln:
+            key = K_BITOVF
         else:
             key = "line/%s/%s" % (ftype, ln.encode().hex()[:40])
         nbad += 1
@@ -568,7 +587,7 @@ def literal_tokens(chk):
     for L in range(0, 5 if not chk.thorough else 6):
         toks.update(b"".join(x) for x in itertools.product(A, repeat=L))
     B = [b"0", b"1", b"x", b"e", b".", b"-", b";", b"8"]
-    for L in (5, 6) if not chk.thorough else (6, 7):
+    for L in (5,) if not chk.thorough else (5, 6, 7):
         toks.update(b"".join(x) for x in itertools.product(B, repeat=L))
     special = ["18446744073709551615", "18446744073709551616", "9223372036854775807", "9223372036854775808",
                "-9223372036854775808", "-9223372036854775809", "-18446744073709551615", "-18446744073709551616",
@@ -630,8 +649,10 @@ def literal_part(chk, lit_exe, drv, problems):
     toks = literal_tokens(chk)
     modes = [(10, 1), (8, 1), (5, 0)]
     inp = "".join("%d %d %s\n" % (st, ped, tk.hex() or "-") for tk in toks for st, ped in modes).encode()
-    rc1, o1, e1 = run([lit_exe, "num"], inp)
-    rc2, o2, e2 = run([drv, "num", variant], inp)
+    with ThreadPoolExecutor(max_workers=2) as ex:
+        f1 = ex.submit(run_sharded, [lit_exe, "num"], inp, 4)
+        f2 = ex.submit(run_sharded, [drv, "num", variant], inp, 8)
+        (rc1, o1, e1), (rc2, o2, e2) = f1.result(), f2.result()
     il, ml = o1.splitlines(), o2.splitlines()
     n = len(toks) * len(modes)
     if rc1 != 0 or rc2 != 0 or len(il) != n or len(ml) != n:
@@ -676,8 +697,10 @@ def literal_part(chk, lit_exe, drv, problems):
     sel = sorted(set(sel) | set(s for s in literal_tokens.special if 0 < len(s) <= 24 and b"\n" not in s))
     smodes = [(10, "P"), (8, "P"), (6, "Q")]
     inp = "".join("%d %s %s\n" % (st, m, tk.hex()) for tk in sel for st, m in smodes).encode()
-    rc1, o1, e1 = run([lit_exe, "scalar"], inp)
-    rc2, o2, e2 = run([drv, "scalar", variant], inp)
+    with ThreadPoolExecutor(max_workers=2) as ex:
+        f1 = ex.submit(run_sharded, [lit_exe, "scalar"], inp, 8)
+        f2 = ex.submit(run_sharded, [drv, "scalar", variant], inp, 4)
+        (rc1, o1, e1), (rc2, o2, e2) = f1.result(), f2.result()
     il, ml = o1.splitlines(), o2.splitlines()
     n2 = len(sel) * len(smodes)
     if rc1 != 0 or rc2 != 0 or len(il) != n2 or len(ml) != n2:
